@@ -160,6 +160,7 @@ def parse(
     **settings: Any,
 ) -> Any:
     filename = filename or settings.pop('source', None)
+    given_config = config
     config = ParserConfig.new(
         config=config,
         start=start,
@@ -187,7 +188,14 @@ def parse(
             constructors=constructors,
         )
         config.semantics = ModelBuilderSemantics(config=builderconfig)
-    return model.parse(text, start=start, semantics=semantics, config=config)
+    # NOTE: pass on only what the caller gave: a complete, default-valued
+    #   configuration would override the directives of the grammar
+    explicit = {name: value for name, value, _ in config.diff(ParserConfig())}
+    explicit.update(
+        {name: getattr(config, name) for name in settings if hasattr(config, name)}
+    )
+    explicit.pop('start', None)
+    return model.parse(text, start=start, config=given_config, **explicit)
 
 
 def to_python_sourcecode(
